@@ -2,6 +2,7 @@ package checks
 
 import (
 	"bytes"
+	"crypto/sha256"
 	"encoding/binary"
 	"fmt"
 	"runtime"
@@ -456,7 +457,7 @@ func execC13c2(p *drv.Plan) *Out {
 		d := base.Fork()
 		// choose what to corrupt
 		var target []byte
-		what := []string{"root", "rootmarker", "fast", "label", "leaf"}[r.Intn(5)]
+		what := []string{"root", "rootmarker", "fast", "label", "leaf", "legacyroot"}[r.Intn(6)]
 		traverse := false
 		switch what {
 		case "root":
@@ -467,6 +468,17 @@ func execC13c2(p *drv.Plan) *Out {
 		case "label":
 			target = ref.StorageVersionKey
 			traverse = true
+		case "legacyroot":
+			// the root entry of a version in the legacy layout: r<version> -> root
+			// hash. One version's new-layout root entry is replaced by a legacy
+			// one (a 32-byte hash no node answers to: "value missing" is the right
+			// answer), which is then corrupted like every other entry.
+			vers := M.Versions()
+			ver := vers[r.Intn(len(vers))]
+			d.RawDelete(ref.SKey(ver, 1))
+			target = ref.LegacyRootKey(ver)
+			hsh := sha256.Sum256([]byte(fmt.Sprintf("legacy-root-%d", ver)))
+			d.RawSet(target, hsh[:])
 		case "fast", "leaf":
 			var cands [][]byte
 			for _, e := range d.Dump() {
